@@ -250,6 +250,13 @@ func (svr *Server) Publish(msg *message.PublishMessage) error {
 		return err
 	}
 
+	// Forwards to existing subscriptions carry the retain flag reset
+	// (MQTT-3.3.1-9), to in-process subscribers as well.
+	sr := msg.Retain()
+	if sr {
+		msg.SetRetain(false)
+	}
+
 	for i, s := range subs {
 		if s != nil {
 			fn := s.(*OnPublishFunc)
@@ -259,6 +266,11 @@ func (svr *Server) Publish(msg *message.PublishMessage) error {
 				log.Warningf("%v", err)
 			}
 		}
+	}
+
+	// restore retain flag
+	if sr {
+		msg.SetRetain(true)
 	}
 
 	return nil
